@@ -122,9 +122,9 @@ def fraction_cases(max_ops):
     point the way the statement spells it, is at least the amount - also when the difference lands exactly on it."""
     amt = st.sampled_from([0.1, 0.2, 0.3, 0.6, 0.7, 1.1, 1.7, 2.3, 0.5, 1])
     nm = st.sampled_from(['a', 'a', 'b'])
-    add = st.tuples(st.just('add'), nm, amt).map(list)
+    add = st.tuples(st.just('add'), nm, st.one_of(amt, amt, amt.map(lambda v: -v))).map(list)
     reserve = st.tuples(st.just('reserve'), st.dictionaries(nm, amt, min_size=1, max_size=2)).map(list)
     release = st.tuples(st.just('release'), st.integers(0, 5), st.none()).map(list)
-    pre = st.lists(add, min_size=1, max_size=3)
+    pre = st.lists(st.tuples(st.just('add'), nm, amt).map(list), min_size=1, max_size=3)
     return st.builds(lambda a, b: {'ops': a + b, 'decimal': True}, pre,
                      st.lists(st.one_of(add, reserve, reserve, reserve, release, release), min_size=4, max_size=max_ops))
